@@ -461,6 +461,8 @@ def _moves(ref, quick, last_step, prev):
     for n in pos:
         mv.append(("rename_variable", n, new))
     if len(names) > 1:
+        mv.append(("rename_clash", names[0], names[-1]))  # onto the name of ANOTHER variable
+    if len(names) > 1:
         for n in pos:
             mv.append(("filter", n))
         if not quick and len(names) > 2:
@@ -512,6 +514,16 @@ def _apply(ctx, ds, ref, mv, k):
         if ds.variable_names == [n for n in ref.names() if n != mv[2]] + [mv[2]]:
             v = ref.get(mv[2])
             ref.vars = [w for w in ref.vars if w is not v] + [v]
+    elif op == "rename_clash":
+        # two variables cannot share a name: either the edit is refused (ValueError, nothing changes) or the renamed variable takes the
+        # place of the other one; whichever the code does, all the views must still agree (checked by the observations that follow)
+        try:
+            ds.rename_variable(mv[1], mv[2])
+        except ValueError:
+            pass
+        else:
+            ref.vars = [v for v in ref.vars if v.name != mv[2]]
+            ref.get(mv[1]).name = mv[2]
     elif op == "filter":
         keep = [mv[1]] if isinstance(mv[1], str) else list(mv[1])
         ds.filter(mv[1] if isinstance(mv[1], str) else list(mv[1]))
